@@ -92,7 +92,7 @@ func judgeObligations(m *Model, seqs map[seqKey][]*Attempt, sendResolvedOf func(
 					last := lastOKBefore(seqKey{gk, rt.Receiver, idx}, tau)
 					if last == nil {
 						add(pbt.V("knowledge-missing", "alert %s eligible during [%s, %s] but no notification for group %s was ever delivered to %s/%d", key, t1.Format(tf), tau.Format(tf), gk, rt.Receiver, idx))
-					} else if f, _ := split(last); !f[key] {
+					} else if f, _ := split(last); !f[key] && !rolledBack(m, last.Done, tau) {
 						add(pbt.V("knowledge-missing", "alert %s eligible during [%s, %s] but the latest notification delivered to %s/%d for group %s (at %s) does not list it as firing", key, t1.Format(tf), tau.Format(tf), rt.Receiver, idx, gk, last.Done.Format(tf)))
 					}
 				}
@@ -475,4 +475,16 @@ func sortedCounts(m map[string]int) []string {
 	}
 	sort.Strings(out)
 	return out
+}
+
+// rolledBack: a restart from the last maintenance snapshot (or without one) lies in (t1, t2): the log has
+// forgotten what the receiver was told since that snapshot, so "the latest delivered notification" and the
+// log may legitimately disagree until the next repeat.
+func rolledBack(m *Model, t1, t2 time.Time) bool {
+	for _, r := range m.Restarts {
+		if r.Kind != "clean" && r.At.After(t1) && r.At.Before(t2) {
+			return true
+		}
+	}
+	return false
 }
